@@ -637,14 +637,14 @@ func (gw *GlobalWindow) getKeyAndValues(data map[string]any) (string, map[string
 		}
 		values[k] = val
 		if val == nil {
-			parts = append(parts, "")
+			parts = append(parts, nullGroupKeyPart) // NULL / missing value forms its own group
 		} else if s, ok := val.(string); ok {
-			parts = append(parts, s)
+			parts = append(parts, groupKeyPart(s))
 		} else {
-			parts = append(parts, fmt.Sprintf("%v", val))
+			parts = append(parts, groupKeyPart(fmt.Sprintf("%v", val)))
 		}
 	}
-	return strings.Join(parts, "|"), values
+	return strings.Join(parts, groupKeySep), values
 }
 
 // feedAggs feeds the row's field values into a group's output aggregators.
